@@ -83,17 +83,119 @@ type c08World struct {
 	contract []byte
 	other    []byte
 	paths    []c08Path
+	bpaths   []c08Path // boundary paths (long names, boundary sequences), present in every state
+	bseq     []string
 }
 
-func c08Slot(kind, src, dst string, seq uint64) []byte {
+func c08PathBytes(kind, src, dst string, seq uint64) []byte {
 	pfx := "commitments"
 	if kind == "a" {
 		pfx = "acks"
 	}
-	path := pfx + "/" + src + "/" + dst + "/sequences/" + strconv.FormatUint(seq, 10)
+	return []byte(pfx + "/" + src + "/" + dst + "/sequences/" + strconv.FormatUint(seq, 10))
+}
+
+// slot of an arbitrary byte string used as mapping key: keccak(key ‖ uint256(208)), over the WHOLE key
+func c08SlotOfBytes(path []byte) []byte {
 	word := make([]byte, 32)
 	word[31] = 208
-	return crypto.Keccak256(append([]byte(path), word...))
+	return crypto.Keccak256(append(append([]byte{}, path...), word...))
+}
+
+func c08Slot(kind, src, dst string, seq uint64) []byte {
+	return c08SlotOfBytes(c08PathBytes(kind, src, dst, seq))
+}
+
+// ---- boundary dimension: names of length 1..64 (and beyond), every character IsValidID allows, boundary sequences,
+// path lengths just below / at / above 128, 160, 192, 256 bytes
+
+const c08IDChars = "abcdefghijklmnopqrstuvwxyzABCDEFGHIJKLMNOPQRSTUVWXYZ0123456789._+-#[]<>"
+
+var c08BoundSeqs = []uint64{1, 9, 10, 100000000, 123456789, 1000000000000000, 1 << 53, 1<<63 - 1, 1 << 63, ^uint64(0)}
+var c08BoundSeqNames = []string{"1", "9", "10", "1e8", "123456789", "1e15", "2p53", "2p63m1", "2p63", "2p64m1"}
+var c08Cuts = []int{128, 160, 192, 256}
+
+func c08Name(r *Rec, n int) string {
+	b := make([]byte, n)
+	for i := range b {
+		b[i] = c08IDChars[r.Rng.Intn(len(c08IDChars))]
+	}
+	if n > 0 && r.Rng.Intn(3) == 0 { // make sure the special characters occur
+		b[r.Rng.Intn(n)] = "._+-#[]<>"[r.Rng.Intn(9)]
+	}
+	return string(b)
+}
+
+// a path whose total length hits a chosen target (or with chosen name lengths); returns the sequence's name too
+func c08BoundaryPath(r *Rec) (c08Path, string) {
+	p := c08Path{kind: []string{"c", "a"}[r.Rng.Intn(2)]}
+	si := r.Rng.Intn(len(c08BoundSeqs))
+	p.seq = c08BoundSeqs[si]
+	konst := len(c08PathBytes(p.kind, "", "", p.seq))
+	c08Cycle6++
+	if c08Cycle6%3 == 0 { // name lengths chosen independently, incl. exactly 63 / 64 (the maximum of a valid identifier)
+		ls := []int{1, 63, 64, 2, 31, 32, 33, 62}
+		a, b := ls[c08Cycle4%len(ls)], ls[(c08Cycle4/len(ls))%len(ls)]
+		if c08Cycle4%3 == 2 { // the extremes more often
+			a, b = ls[c08Cycle4%3], ls[(c08Cycle4/3)%3]
+		}
+		c08Cycle4++
+		p.src, p.dst = c08Name(r, a), c08Name(r, b)
+		return p, c08BoundSeqNames[si]
+	}
+	targets := []int{127, 128, 129, 159, 160, 161, 162, 163, 170, 191, 192, 193, 255, 256, 257, 300}
+	rem := targets[c08Cycle3%len(targets)] - konst
+	c08Cycle3++
+	if rem < 2 {
+		rem = 2
+	}
+	var a int
+	if rem <= 128 {
+		lo, hi := rem-64, 64
+		if lo < 1 {
+			lo = 1
+		}
+		if hi > rem-1 {
+			hi = rem - 1
+		}
+		a = lo + r.Rng.Intn(hi-lo+1)
+		switch r.Rng.Intn(4) { // prefer the extremes
+		case 0:
+			a = lo
+		case 1:
+			a = hi
+		}
+	} else { // only reachable with names longer than a valid identifier
+		a = rem / 2
+	}
+	p.src, p.dst = c08Name(r, a), c08Name(r, rem-a)
+	return p, c08BoundSeqNames[si]
+}
+
+var c08Cycle, c08Cycle2, c08Cycle3, c08Cycle4, c08Cycle5, c08Cycle6 int
+
+func c08LenBucket(n int) string {
+	switch {
+	case n < 128:
+		return "lt128"
+	case n == 128:
+		return "eq128"
+	case n < 160:
+		return "129-159"
+	case n == 160:
+		return "eq160"
+	case n == 161:
+		return "eq161"
+	case n < 192:
+		return "162-191"
+	case n == 192:
+		return "eq192"
+	case n < 256:
+		return "193-255"
+	case n == 256:
+		return "eq256"
+	}
+	return "gt256"
 }
 
 func c08NewTrie() *trie.Trie {
@@ -265,6 +367,25 @@ func c08NewWorld(r *Rec) *c08World {
 		c.raw[string(c08Slot("c", "non-evm", "raw", 1))] = append([]byte{0xb8, 0x20}, c08Rand(r, 32)...)
 	case 2:
 		c.raw[string(c08Slot("c", "non-evm", "raw", 1))] = append([]byte{0x81}, byte(r.Rng.Intn(0x80)))
+	}
+	// boundary paths, and for each of them the slots a length-limited or digit-dropping implementation would look at
+	for i := 0; i < 16; i++ {
+		bp, sn := c08BoundaryPath(r)
+		w.bpaths, w.bseq = append(w.bpaths, bp), append(w.bseq, sn)
+		path := c08PathBytes(bp.kind, bp.src, bp.dst, bp.seq)
+		c.storage[string(c08SlotOfBytes(path))] = c08RandValue(r)
+		for _, cut := range c08Cuts {
+			if len(path) > cut {
+				if ts := string(c08SlotOfBytes(path[:cut])); c.storage[ts] == nil {
+					c.storage[ts] = c08RandValue(r)
+				}
+			}
+		}
+		for q := bp.seq / 10; q > 0 && q >= bp.seq/1000; q /= 10 {
+			if qs := string(c08Slot(bp.kind, bp.src, bp.dst, q)); c.storage[qs] == nil {
+				c.storage[qs] = c08RandValue(r)
+			}
+		}
 	}
 	accts[string(c.addr)] = c
 	accts[string(d.addr)] = d
@@ -946,6 +1067,9 @@ var c08Classes = []string{
 	"cons-missing", "cons-corrupt-X", "cons-corrupt-Y", "cons-root-random", "cons-root-other-state", "cons-root-short",
 	"height-other-stored", "height-unstored",
 	"non-evm-long", "non-evm-lead0", "non-evm-raw", "json-variant", "json-null-fields",
+	"bnd-path-valid", "bnd-path-valid", "bnd-path-valid", "bnd-path-valid", "bnd-path-trunc-forgery", "bnd-path-trunc-forgery", "bnd-path-trunc-forgery",
+	"bnd-seq-digits-cut", "bnd-seq-digits-cut", "bnd-heights", "bnd-heights", "bnd-bsc-validators", "bnd-bsc-validators", "bnd-bsc-validators", "bnd-bsc-validators",
+	"bnd-bsc-validators", "bnd-bsc-validators", "bnd-bsc-validators", "bnd-eth-delay", "bnd-eth-delay", "bnd-eth-delay",
 	"cons-inner-height", "cons-inner-height", "cons-inner-height", "cons-inner-height", "cons-inner-height", "cons-inner-height",
 	"delay-boundary", "delay-boundary", "delay-boundary", "height-above-head", "rev-head-lower", "rev-head-higher", "rev-head-higher-wrap", "rev-both", "big-heights", "delay-huge",
 }
@@ -1583,6 +1707,133 @@ func c08Gen(r *Rec, w *c08World) *c08Case {
 		}
 		r.Count("inner." + variant)
 		r.Count("inner." + c.client + "." + c.kind)
+	case "bnd-path-valid", "bnd-path-trunc-forgery", "bnd-seq-digits-cut":
+		bi := (c08Cycle5 * 7) % len(w.bpaths) // rotate through the boundary paths (7 is coprime to their number)
+		c08Cycle5++
+		bp := w.bpaths[bi]
+		c.kind, c.src, c.dst, c.seq = bp.kind, bp.src, bp.dst, bp.seq
+		path := c08PathBytes(bp.kind, bp.src, bp.dst, bp.seq)
+		slot = c08SlotOfBytes(path)
+		cAcct := st.accts[string(w.contract)]
+		c.value = c08Pad32(cAcct.storage[string(slot)])
+		rec = st.genuine(w.contract, slot)
+		r.Count("bnd.pathlen." + c08LenBucket(len(path)))
+		r.Count("bnd.seq." + w.bseq[bi])
+		for _, nl := range []int{1, 63, 64} {
+			if len(bp.src) == nl {
+				r.Count(fmt.Sprintf("bnd.name.src%d", nl))
+			}
+			if len(bp.dst) == nl {
+				r.Count(fmt.Sprintf("bnd.name.dst%d", nl))
+			}
+		}
+		if len(bp.src) > 64 || len(bp.dst) > 64 {
+			r.Count("bnd.name.overlong")
+		}
+		switch c.class {
+		case "bnd-path-trunc-forgery":
+			// claim: the packet's slot holds what the slot of the path CUT at 128 / 160 / 192 / 256 bytes holds, with a genuine
+			// proof of that other slot (for a cut inside the sequence digits this is the real slot of another packet)
+			var cuts []int
+			for _, cut := range c08Cuts {
+				if len(path) > cut {
+					cuts = append(cuts, cut)
+				}
+			}
+			if len(cuts) > 0 {
+				cut := cuts[r.Rng.Intn(len(cuts))]
+				ts := c08SlotOfBytes(path[:cut])
+				rec = st.genuine(w.contract, ts)
+				c.value = c08Pad32(cAcct.storage[string(ts)])
+				c.breaking = true
+				r.Count(fmt.Sprintf("bnd.trunc.%d", cut))
+			} else {
+				c.class = "bnd-path-valid"
+			}
+		case "bnd-seq-digits-cut":
+			// claim: sequence s holds what the packet with the last digit(s) of s dropped holds, with that packet's genuine proof
+			q := bp.seq / 10
+			if r.Rng.Intn(3) == 0 && bp.seq >= 1000 {
+				q = bp.seq / 100
+			}
+			if q > 0 {
+				qs := c08Slot(bp.kind, bp.src, bp.dst, q)
+				rec = st.genuine(w.contract, qs)
+				c.value = c08Pad32(cAcct.storage[string(qs)])
+				c.breaking = true
+			} else {
+				c.class = "bnd-path-valid"
+			}
+		}
+	case "bnd-heights":
+		// block numbers and revision numbers at the uint64 boundaries (same revision for head and stored states)
+		bs := []uint64{0, 1, 1<<31 - 1, 1 << 32, 1<<53 + 1, 1<<63 - 1, 1 << 63, ^uint64(0) - c.delay() - 1, ^uint64(0) - c.delay()}
+		target := bs[r.Rng.Intn(len(bs))]
+		nrn := []uint64{0, 1, 1 << 32, 1 << 63, ^uint64(0)}[r.Rng.Intn(5)]
+		used := map[uint64]bool{target: true}
+		for i := range c.cons {
+			c.cons[i].rn = nrn
+			if c.cons[i].rh == c.hRh {
+				c.cons[i].rh = target
+				continue
+			}
+			nh := target + uint64(1+i) // other states a little above (wrapping keeps them distinct)
+			if r.Rng.Intn(2) == 0 && target > uint64(1+i) {
+				nh = target - uint64(1+i)
+			}
+			for used[nh] {
+				nh++
+			}
+			used[nh] = true
+			c.cons[i].rh = nh
+		}
+		c.hRn, c.headRn, c.hRh = nrn, nrn, target
+		if target <= ^uint64(0)-c.delay() {
+			c.headRh = target + c.delay()
+			if r.Rng.Intn(3) == 0 && c.headRh > 0 && c.delay() > 0 {
+				c.headRh-- // one confirmation short
+			}
+		} else {
+			c.headRh = ^uint64(0)
+		}
+		r.Count("bnd.height")
+	case "bnd-bsc-validators":
+		// validator-set sizes 1..41, proof height exactly head − N/2 (one confirmation short) and head − N/2 − 1 (confirmed)
+		c.client = "bsc"
+		c.dp = uint64(1 + r.Rng.Intn(41))
+		short := r.Rng.Intn(2) == 0
+		if r.Rng.Intn(3) > 0 { // systematically: even sizes 2,4,6,8,20 × {one short, exactly confirmed}
+			c.dp = []uint64{2, 4, 6, 8, 20}[c08Cycle%5]
+			short = (c08Cycle/5)%2 == 0
+			c08Cycle++
+		}
+		which := "exact"
+		c.headRh = c.hRh + c.dp/2 + 1
+		if short {
+			which = "short"
+			c.headRh = c.hRh + c.dp/2
+		}
+		if c.dp%2 == 0 {
+			r.Count("bnd.bscval.even." + which)
+			switch c.dp {
+			case 2, 4, 6, 8, 20:
+				r.Count(fmt.Sprintf("bnd.bscval.%d.%s", c.dp, which))
+			}
+		} else {
+			r.Count("bnd.bscval.odd." + which)
+		}
+	case "bnd-eth-delay":
+		c.client = "eth"
+		di := c08Cycle2 % 4
+		c.dp = []uint64{0, 1, 1 << 32, 1 << 63}[di]
+		c.headRh = c.hRh + c.dp // hRh < 2^63 by construction
+		which := "exact"
+		c08Cycle2++
+		if c.dp > 0 && (c08Cycle2/4)%2 == 0 {
+			which = "short"
+			c.headRh--
+		}
+		r.Count("bnd.ethdelay." + []string{"0", "1", "2p32", "2p63"}[di] + "." + which)
 	case "height-above-head":
 		if c.hRh > 0 {
 			c.headRh = c.hRh - 1 - uint64(r.Rng.Intn(int(c08Min(c.hRh, 5))))
@@ -1823,7 +2074,13 @@ func c08Direct(r *Rec) (string, string) {
 		if r.Rng.Intn(6) == 0 {
 			seq = ^uint64(0)
 		}
-		op = fmt.Sprintf("sl %s %s %s %s %d", cl, []string{"c", "a"}[r.Rng.Intn(2)], hxs(src), hxs(dst), seq)
+		kind := []string{"c", "a"}[r.Rng.Intn(2)]
+		if r.Rng.Intn(2) == 0 { // boundary names / sequences / path lengths
+			bp, _ := c08BoundaryPath(r)
+			kind, src, dst, seq = bp.kind, bp.src, bp.dst, bp.seq
+			r.Count("direct.sl.boundary." + c08LenBucket(len(c08PathBytes(kind, src, dst, seq))))
+		}
+		op = fmt.Sprintf("sl %s %s %s %s %d", cl, kind, hxs(src), hxs(dst), seq)
 	}
 	return op, c08DirectEval(r, op)
 }
